@@ -19,6 +19,14 @@ not found - a refactor is never an alarm; the result then says `extraction: pinn
   defaults          `typ`/`smooth` of a point, width/height of the advance, format numbers, the identity transform
                     (bit patterns of the doubles)
   errors            the error variant for an attribute the element does not know, per element
+  accessors         WHICH name every comparison looks at: per function the quick-xml accessor of each element-name
+                    comparison (`x.name().as_ref()` = the tag as written, `x.local_name().as_ref()` = the part behind a
+                    namespace prefix) and per attribute loop the accessor of each `match` on the attribute key
+                    (`attr.key.as_ref()` = `key`, `attr.key.local_name().as_ref()` = `key.local_name`).  The table
+                    sections above accept either accessor, so that a change of accessor is REPORTED here (and fails
+                    `source_dispatch_on_full_name`) instead of hiding behind a pinned fallback.  An accessor that is
+                    neither, or a function with another number of comparison sites than the transcription knows, is a
+                    refactor: pinned.
 
 The tie theorems of Norad/Props/C12.lean (`source_*`, by `decide`) compare these with the tables of the model
 (`Lemmas/GlifTables.lean`, each proved to characterise the model function it belongs to) and of the specification
@@ -184,9 +192,13 @@ ELEMENT_FN = [("glyph", "start"), ("advance", "parse_advance"), ("unicode", "par
               ("component", "parse_component"), ("contour", "parse_contour")]
 
 
+ATTR_KEY = r"attr\.key(?:\.local_name\(\))?\.as_ref\(\)"
+EL_NAME = r"\w+\.(?:name|local_name)\(\)\.as_ref\(\)"
+
+
 def attr_match(ps, fn):
     body = fn_block(ps, fn)
-    blk, _ = match_block(body, r"attr\.key\.as_ref\(\)")
+    blk, _ = match_block(body, ATTR_KEY)
     return body, blk
 
 
@@ -318,7 +330,7 @@ def event_arms(fnbody):
 
 
 def inner_name_match(body):
-    blk, _ = match_block(body if body.startswith("{") else "{" + body + "}", r"start\.name\(\)\.as_ref\(\)")
+    blk, _ = match_block(body if body.startswith("{") else "{" + body + "}", EL_NAME)
     return arms(blk)
 
 
@@ -391,7 +403,7 @@ def sec_dispatch_contour(ps, md):
     ev = event_arms(fn_block(ps, "parse_contour"))
     empties = []
     for pat, body in ev:
-        m = re.match(r"Event::Empty\(.*?\)\s*if\s+\w+\.name\(\)\.as_ref\(\)\s*==\s*b\"(\w+)\"", pat, flags=re.S)
+        m = re.match(r"Event::Empty\(.*?\)\s*if\s+" + EL_NAME + r"\s*==\s*b\"(\w+)\"", pat, flags=re.S)
         if m:
             empties.append(m.group(1))
     if not empties:
@@ -410,7 +422,7 @@ def sec_dispatch_start(ps, md):
     skipped = [re.match(r"Event::(\w+)", p).group(1) for p, b in ev if re.match(r"Event::(Comment|Decl)\(", p) and b in ("()", "{}")]
     root = None
     for pat, _ in ev:
-        m = re.match(r"Event::Start\(.*?\)\s*if\s+\w+\.name\(\)\.as_ref\(\)\s*==\s*b\"(\w+)\"", pat, flags=re.S)
+        m = re.match(r"Event::Start\(.*?\)\s*if\s+" + EL_NAME + r"\s*==\s*b\"(\w+)\"", pat, flags=re.S)
         if m:
             root = m.group(1)
     if root is None:
@@ -485,11 +497,58 @@ def sec_errors(ps, md):
             "def unknownAttrError : List (List Char × List Char) :=\n  [" + ",\n   ".join(rows) + "]\n")
 
 
+# ---------------------------------------------------------------- which name is compared
+
+# function -> number of element-name comparison sites the transcription knows (Start/Empty `match`es and `==` guards)
+ELEMENT_SITES = [("start", 1), ("parse_body", 3), ("parse_outline", 3), ("parse_contour", 2), ("parse_lib", 1), ("parse_note", 1)]
+KNOWN_ELEMENT_ACCESSORS = ("name", "local_name")
+
+
+def sec_accessors(ps, md):
+    rows = []
+    for fn, expected in ELEMENT_SITES:
+        body = fn_block(ps, fn)
+        # every `<ident>.<accessor>().as_ref()` that is matched on or compared with a byte literal
+        found = [m.group(1) for m in re.finditer(
+            r"(?<![\w.])\w+\.(\w+)\(\)\.as_ref\(\)\s*(?:\{|==\s*b\")", body)]
+        if len(found) != expected:
+            raise NotFound("%d element-name comparisons in %s, %d known" % (len(found), fn, expected))
+        for a in found:
+            if a not in KNOWN_ELEMENT_ACCESSORS:
+                raise NotFound("unknown accessor %s() in %s" % (a, fn))
+        rows.append("(%s, %s)" % (lean_str(fn), lean_strs(found)))
+    arows = []
+    for el, fn in ELEMENT_FN:
+        body = fn_block(ps, fn)
+        found = re.findall(r"\bmatch\s+attr\.key((?:\.\w+\(\))*)\.as_ref\(\)\s*\{", body)
+        if not found:
+            raise NotFound("no match on the attribute key in " + fn)
+        # any other use of the key as a name (e.g. `attr.key.local_name()` outside a match) is a refactor
+        if len(re.findall(r"\battr\.key\b", body)) != len(found):
+            raise NotFound("attribute key used outside a match in " + fn)
+        acc = []
+        for chain in found:
+            if chain == "":
+                acc.append("key")
+            elif chain == ".local_name()":
+                acc.append("key.local_name")
+            else:
+                raise NotFound("unknown key accessor %s in %s" % (chain, fn))
+        arows.append("(%s, %s)" % (lean_str(el), lean_strs(acc)))
+    return ("/-- function ↦ the quick-xml accessor of each of its element-name comparisons, in source order: `name` is the tag\n"
+            "    as written (`x:advance`), `local_name` the part behind a namespace prefix (`advance`) -/\n"
+            "def elementNameAccessors : List (List Char × List (List Char)) :=\n  [" + ",\n   ".join(rows) + "]\n"
+            "/-- element ↦ what each `match` of its attribute loop looks at: `key` is `attr.key.as_ref()`, the attribute name as\n"
+            "    written -/\n"
+            "def attrNameAccessors : List (List Char × List (List Char)) :=\n  [" + ",\n   ".join(arows) + "]\n")
+
+
 SECTIONS = ([("attrs_" + el, sec_attrs(el, fn)) for el, fn in ELEMENT_FN] +
             [("required_" + el, sec_required(el, fn)) for el, fn in ELEMENT_FN if el in ("glyph", "anchor", "image", "point", "component")] +
             [("required_guideline", sec_guideline_shapes), ("dispatch_body", sec_dispatch_body),
              ("dispatch_outline", sec_dispatch_outline), ("dispatch_contour", sec_dispatch_contour),
-             ("dispatch_start", sec_dispatch_start), ("defaults", sec_defaults), ("errors", sec_errors)])
+             ("dispatch_start", sec_dispatch_start), ("defaults", sec_defaults), ("errors", sec_errors),
+             ("accessors", sec_accessors)])
 
 HEADER = """/-!
 GENERATED by tools/extract_glif_parser.py from norad's src/glyph/parse.rs (and the identity transform of
